@@ -7,6 +7,10 @@
 void vr_free(void *p);
 #define free(p) vr_free(p)
 #include "abti.h"
+#if OP == 2
+void vr_pause(void);
+#define ABTD_atomic_pause() vr_pause()      /* the polling loop of thread_join_busywait in thread.c (included below) */
+#endif
 #include "vr.h"
 #include "stub_io.h"
 #include "thread.c"
@@ -23,6 +27,10 @@ static ABTI_thread *mk(void)
     t->p_pool = &P; t->p_keytable.val = NULL; ABTI_unit_init_builtin(t); live++;
     return t;
 }
+#if OP == 2
+/* each poll lets the polled-for unit finish: the first unit of the array that has not terminated yet terminates */
+void vr_pause(void) { ABTI_thread *ts[3] = { &D0.thread, &D1.thread, &D2.thread }; for (int i = 0; i < 3; i++) if (ts[i]->state.val != ABT_THREAD_STATE_TERMINATED && ts[i]->p_pool == &P) { ts[i]->state.val = ABT_THREAD_STATE_TERMINATED; return; } }
+#endif
 static void one_pattern(int pat)
 {
     /* (patterns are enumerated, not symbolic: a handle that is "NULL or a descriptor" by the solver's choice makes cbmc explore
@@ -36,6 +44,13 @@ static void one_pattern(int pat)
     VR_ASSERT(r == ABT_SUCCESS, "free_many succeeds");
     for (int i = 0; i < 3; i++) VR_ASSERT(hs[i] == ABT_THREAD_NULL, "free_many resets every handle, also those after a NULL entry");
     VR_ASSERT(live == 0, "every non-NULL entry was joined and released exactly once -- also entries after a NULL hole");
+#elif OP == 2
+    /* tasklet targets that are still RUNNING; the caller is an external thread and polls each one until it has terminated */
+    for (int i = 0; i < 3; i++) if (present[i]) ((ABTI_thread *)hs[i])->state.val = ABT_THREAD_STATE_RUNNING;
+    int r = ABT_thread_join_many(3, hs);
+    VR_ASSERT(r == ABT_SUCCESS, "join_many succeeds");
+    for (int i = 0; i < 3; i++) if (present[i]) VR_ASSERT(((ABTI_thread *)hs[i])->state.val == ABT_THREAD_STATE_TERMINATED, "join_many returns only after EVERY non-NULL entry has terminated -- also entries after a NULL hole");
+    live = 0;
 #else
     int r = ABT_thread_join_many(3, hs);
     VR_ASSERT(r == ABT_SUCCESS, "join_many succeeds");
